@@ -243,6 +243,30 @@ theorem C15_spline_scale_data (c : F) (xs ys ks : List F) (hy : ys.length = xs.l
     simp only [pieceAt, List.getElem_map]
     exact pieceCubic_scale c _ _ _ _ _ _ q
 
+/-- **C15_spline_add**: superposition — the spline of the sum of two data sets (boundary derivative
+    values added, both selections of the same kind at each end) is the sum of the splines: slopes
+    and every cubic piece add. -/
+theorem C15_spline_add (xs ys zs ks ms : List F) (hy : ys.length = xs.length) (hz : zs.length = xs.length)
+    (hn : 3 ≤ xs.length) (l1 l2 r1 r2 : SingleBoundary F)
+    (hl : l1.sameKind l2 = true) (hr : r1.sameKind r2 = true)
+    (hk : ks.length = xs.length) (hm : ms.length = xs.length)
+    (h1 : solveForK (V := F) xs ys (.mixed l1 r1) = .ok ks)
+    (h2 : solveForK (V := F) xs zs (.mixed l2 r2) = .ok ms) :
+    solveForK (V := F) xs (List.zipWith (· + ·) ys zs) (.mixed (l1.add l2) (r1.add r2)) =
+      .ok (List.zipWith (· + ·) ks ms) ∧
+    ∀ i (hi : i + 1 < xs.length) q,
+      (pieceAt xs (List.zipWith (· + ·) ys zs) (List.zipWith (· + ·) ks ms) i hi (by simp [hy, hz])
+        (by simp [hk, hm])).eval q =
+        (pieceAt xs ys ks i hi hy hk).eval q + (pieceAt xs zs ms i hi hz hm).eval q := by
+  constructor
+  · rw [solveForK_mixed xs ys hy hn] at h1
+    rw [solveForK_mixed xs zs hz hn] at h2
+    injection h1 with h1; injection h2 with h2
+    rw [solveForK_add xs ys zs hy hz hn l1 l2 r1 r2 hl hr, h1, h2]
+  · intro i hi q
+    simp only [pieceAt, List.getElem_zipWith]
+    exact pieceCubic_add _ _ _ _ _ _ _ _ _ _ q
+
 /-- **C15_spline_shift**: shifting axis and query by the same amount leaves slopes and values unchanged. -/
 theorem C15_spline_shift (d : F) (xs ys ks : List F) (hy : ys.length = xs.length)
     (hn : 3 ≤ xs.length) (left right : SingleBoundary F) (hk : ks.length = xs.length)
